@@ -67,6 +67,12 @@ func init() {
 			}
 		}
 	}
+	add(&quick, "ZZ_C04_Delimiter", bFrag+"; 3-byte delimiter with a repeated leading byte, payloads may contain partial matches", 3, 1, 2, 0, 1)
+	add(&quick, "ZZ_C04_Delimiter", bFrag, 3, 0, 2, 3, 2)
+	add(&thorough, "ZZ_C04_Delimiter", bFrag, 3, 1, 2, 1, 2)
+	for k := int64(0); k < 4; k++ {
+		add(&quick, "ZZ_C04_TwoEncodes", "two encodes by one codec instance, outputs retained; body lengths 0..3 and 100..299", k)
+	}
 	for _, c := range [][]int64{{2, 1}, {2, 2}} {
 		add(&quick, "ZZ_C04_Fixed", "fixed length 1..4 (case-split), two frames, "+bFrag, c...)
 	}
@@ -81,7 +87,7 @@ func init() {
 	Specs["C04"] = &Spec{
 		Jobs: jobsBy(quick, thorough),
 		MustReach: []string{"c04-encoder-rejects", "c04-roundtrip", "c04-codec-roundtrip", "c04-varint-roundtrip", "c04-varint-encoder-rejects",
-			"c04-frag-lengthfield-done", "c04-frag-varint-done", "c04-delimiter-done", "c04-fixed-done", "c04-passthrough-done", "c04-carriers-done"},
+			"c04-frag-lengthfield-done", "c04-frag-varint-done", "c04-delimiter-done", "c04-fixed-done", "c04-passthrough-done", "c04-carriers-done", "c04-two-encodes-done"},
 		Bounds: map[string]string{
 			"quick":    "boundary family: length-field widths 1/2/4/8, both byte orders, includes-length on/off, strip on/off, body length symbolic over [0,2^33] (crosses 2^8, 2^16, 2^32; [0,600] in the configurations that deliver the header with the body), adjustment symbolic in [-4,4], varint max symbolic in [1,2^40]; fragmentation family: bodies of 0..3 bytes, up to two frames back to back, every fragmentation with at most two short reads at arbitrary positions plus the all-single-byte fragmentation, final fragment with and without io.EOF, decoder offsets 0..2, strips 0..header, adjustments -2..2 on 6 configurations; delimiter (1 and 2 bytes), fixed length 1..4, variable-length and packet codecs; 8 carrier types into both length-prefixing encoders",
 			"thorough": "as quick plus all 32 prepender configurations, all 8 codec configurations, 96 fragmentation configurations of the length-field decoder, all delimiter/carrier/strip combinations",
